@@ -40,6 +40,8 @@ def main(argv=None) -> int:
             rep = mod.replay(ctx, payload["driver"], payload["case"])
         else:
             rep = mod.run(ctx)
+            from . import specmut
+            specmut.run_for(ctx, rep, pid)       # vacuity guards: wrong variants of the specification must be rejected by TLC
         known = core.known_keys(pid)
         unlisted, seen_known = [], {}
         seen = set()
